@@ -28,6 +28,8 @@ INVS = ("InvNonInterferenceAfter", "InvNonInterferenceBeside", "InvDeterministic
 RENDER = {
     "print": ["diag_log str 1.23456789;", "diag_log (1/3);", "diag_log [1.5, 2];", "systemChat str 0.1;",
               'diag_log format ["%1|%2", 2.5, 100];', "hint str 1e10;"],
+    # evaluated while the text is preprocessed, before the VM executes anything
+    "evalprint": ["diag_log [__EVAL(1/3), 1.23456789];", "diag_log __EVAL(str 1.23456789);"],
     "tofixed": ["toFixed %d;"],
     "fixedprint": ["toFixed %d; diag_log str (1/3); toFixed -1;", "toFixed %d; diag_log [1.5, 100]; toFixed -1;"],
     "fmtfixed": ["diag_log (1.5 toFixed %d);", "diag_log ((1/3) toFixed %d);"],
